@@ -174,3 +174,6 @@ func vPred(name, arg string) bool {
 // Trace inspection exists only under the engine; natively nothing is recorded.
 func vEventCount(prefix string) int                      { return 0 }
 func vEventArgIs(tag string, k int, v interface{}) bool  { return true }
+
+func vWatchCaptured(f interface{}) {}
+func vWatchEnd()                   {}
